@@ -213,6 +213,22 @@ func main() {
 
 // execFresh re-executes a case in a fresh process and returns the signature it exhibits ("" if none).
 func execFresh(prop string, raw json.RawMessage, cfg workerCfg) (sig, what string, err error) {
+	if isRaceCase(raw) {
+		// A race-tier case runs free: whether the two accesses meet is up to the operating system's scheduler, and a
+		// race that needs a cold process (first use of a lazily built table) gets exactly one chance per process. The
+		// detector has no false positives, so any of several fresh processes showing it is a reproduction.
+		for try := 0; try < 12; try++ {
+			sig, what, err = execFreshOnce(prop, raw, cfg)
+			if err != nil || sig != "" {
+				return sig, what, err
+			}
+		}
+		return "", "", nil
+	}
+	return execFreshOnce(prop, raw, cfg)
+}
+
+func execFreshOnce(prop string, raw json.RawMessage, cfg workerCfg) (sig, what string, err error) {
 	self, _ := os.Executable()
 	in, _ := json.Marshal(map[string]interface{}{"property": prop, "case": raw})
 	repoDir := cfg.Repo
